@@ -433,11 +433,20 @@ class Tr:
             env_f = env if not cnd[2] else cnd[3]
         else:
             env_t = env_f = env
-        if self.exits(s.body) and not s.orelse:
-            # early exit: if c: return/raise ... ; rest
+        if self.exits(s.body):
+            # early exit: if c: return/raise ... [else: B] ; rest   ==   if c: ... else: (B; rest)
             t = self.block(s.body, env_t, lambda e: "Raise RuntimeError")
-            f = self.block(rest, env_f, kont)
+            f = self.block(list(s.orelse) + list(rest), env_f, kont)
             return self.branch(cnd, "(" + t + ")", "(" + f + ")")
+        if s.orelse and self.exits(s.orelse):
+            t = self.block(list(s.body) + list(rest), env_t, kont)
+            f = self.block(s.orelse, env_f, lambda e: "Raise RuntimeError")
+            return self.branch(cnd, "(" + t + ")", "(" + f + ")")
+        # join: a `return` buried in a branch that is joined would be bound as the joined value
+        for sub in list(s.body) + list(s.orelse):
+            for n in ast.walk(sub):
+                if isinstance(n, ast.Return):
+                    self.err(n, "return inside a branch that is joined with its sibling (not translatable soundly)")
         # join
         names = [n for n in self.assigned(s.body) + self.assigned(s.orelse)]
         names = list(dict.fromkeys(names))
